@@ -59,16 +59,11 @@ func (d *deduplicator) notifyDKGStarted(
 
 	// The cache key is the hexadecimal representation of the seed.
 	cacheKey := newDKGSeed.Text(16)
-	// If the key is not in the cache, that means the seed was not handled
-	// yet and the client should proceed with the execution.
-	if !d.dkgSeedCache.Has(cacheKey) {
-		d.dkgSeedCache.Add(cacheKey)
-		return true
-	}
-
-	// Otherwise, the DKG seed is a duplicate and the client should not proceed
-	// with the execution.
-	return false
+	// Add is atomic: it returns true only for the single caller that actually
+	// inserted the key. If the key was not in the cache, the seed was not
+	// handled yet and the client should proceed with the execution. Otherwise,
+	// the DKG seed is a duplicate and the client should not proceed.
+	return d.dkgSeedCache.Add(cacheKey)
 }
 
 // notifyDKGResultSubmitted notifies the client wants to start some actions
@@ -87,16 +82,11 @@ func (d *deduplicator) notifyDKGResultSubmitted(
 		hex.EncodeToString(newDKGResultHash[:]) + ":" +
 		strconv.FormatUint(newDKGResultBlock, 10)
 
-	// If the key is not in the cache, that means the result was not handled
-	// yet and the client should proceed with the execution.
-	if !d.dkgResultHashCache.Has(cacheKey) {
-		d.dkgResultHashCache.Add(cacheKey)
-		return true
-	}
-
-	// Otherwise, the DKG result is a duplicate and the client should not
-	// proceed with the execution.
-	return false
+	// Add is atomic: it returns true only for the single caller that actually
+	// inserted the key. If the key was not in the cache, the result was not
+	// handled yet and the client should proceed with the execution. Otherwise,
+	// the DKG result is a duplicate and the client should not proceed.
+	return d.dkgResultHashCache.Add(cacheKey)
 }
 
 func (d *deduplicator) notifyWalletClosed(
@@ -107,14 +97,10 @@ func (d *deduplicator) notifyWalletClosed(
 	// Use wallet ID converted to string as the cache key.
 	cacheKey := hex.EncodeToString(WalletID[:])
 
-	// If the key is not in the cache, that means the wallet closure was not
-	// handled yet and the client should proceed with the execution.
-	if !d.walletClosedCache.Has(cacheKey) {
-		d.walletClosedCache.Add(cacheKey)
-		return true
-	}
-
+	// Add is atomic: it returns true only for the single caller that actually
+	// inserted the key. If the key was not in the cache, the wallet closure was
+	// not handled yet and the client should proceed with the execution.
 	// Otherwise, the wallet closure is a duplicate and the client should not
-	// proceed with the execution.
-	return false
+	// proceed.
+	return d.walletClosedCache.Add(cacheKey)
 }
